@@ -204,6 +204,16 @@ def langU (G : UCFG U) : Nat → UNT U → List Prog
     | some rs => rs.flatMap (fun r => r.2.flatMap (fun args =>
         (product (args.map (fun a => langU G k a))).map (fun kids => Tree.node r.1 kids)))
 
+/-- the derivations of at most `k` levels from `nt`, each with the term it derives -/
+def dersU (G : UCFG U) : Nat → UNT U → List (Prog × Der U)
+  | 0, _ => []
+  | k + 1, nt =>
+    match AList.lookup nt G.rules with
+    | none => []
+    | some rs => rs.flatMap (fun r => r.2.flatMap (fun args =>
+        (product (args.map (fun a => dersU G k a))).map (fun ks =>
+          (Tree.node r.1 (ks.map (·.1)), (nt, r.1, args) :: (ks.map (·.2)).flatten))))
+
 /-- number of derivations within `k` levels: Σ over rules and alternatives of Π over arguments -/
 def countU (G : UCFG U) : Nat → UNT U → Nat
   | 0, _ => 0
